@@ -1443,15 +1443,27 @@ async fn run_case(ctx: &Ctx<'_>, rng: &mut Rng, selftest: bool) {
             } else {
                 "default-options"
             };
-            let leaf = if !single {
+            // type names of the column the observation is about (the reduced column, or the violating
+            // column when the reduction could not isolate one)
+            let names: Vec<String> = if single {
+                tnm.clone()
+            } else if let Some(ci) = v.column.filter(|ci| *ci < cur.schema.fields().len()) {
+                let mut t = vec![];
+                type_names(cur.schema.field(ci), &mut t);
+                t
+            } else {
+                vec![]
+            };
+            let is_var = |t: &String| matches!(t.as_str(), "utf8" | "largeutf8" | "binary" | "largebinary" | "utf8view" | "binaryview");
+            let leaf = if names.is_empty() {
                 "several-columns"
-            } else if tclass.contains("utf8") || tclass.contains("binary") && !tclass.contains("fixed_size_binary") {
+            } else if names.iter().any(is_var) {
                 "variable-width-items"
-            } else if tclass.contains("fixed_size_list") {
+            } else if names.iter().any(|t| t == "fixed_size_list") {
                 "fixed-size-list-items"
-            } else if tclass.contains("dictionary") {
+            } else if names.iter().any(|t| t.starts_with("dictionary")) {
                 "dictionary-items"
-            } else if tclass.split('/').any(|t| t == "null") {
+            } else if names.iter().any(|t| t == "null") {
                 "null-items"
             } else {
                 "fixed-width-items"
